@@ -9,9 +9,11 @@ import (
 )
 
 // wallet content: 1..maxProofs proofs of 2^0..2^maxExp on the active / the inactive keyset, fees from the property's set
+var vhFeeSet = []uint64{0, 100, 250, 500, 1000, 2000}
+
 func vhHoldings(maxProofs int, maxExp uint64) (*vhWalletEnv, v.Z, cashu.Proofs) {
-	ppkA := uint(v.PickU64(v.U64("ppk.active"), 0, 100, 250, 500, 1000, 2000))
-	ppkI := uint(v.PickU64(v.U64("ppk.inactive"), 0, 100, 250, 500, 1000, 2000))
+	ppkA := uint(v.PickU64(v.U64("ppk.active"), vhFeeSet...))
+	ppkI := uint(v.PickU64(v.U64("ppk.inactive"), vhFeeSet...))
 	env := vhNewWallet(ppkA, ppkI, 0)
 	n := v.Int("nProofs", 1, maxProofs)
 	total := v.ZU(0)
@@ -36,7 +38,9 @@ func vhSendStep(maxProofs int, maxExp uint64) {
 	v.Assume(v.ZLe(v.ZU(amount), total))
 	includeFees := v.Int("includeFees", 0, 1) == 1
 	feeAll := v.ZU(env.mint.fee(held))
+	l := env.snapshot()
 	sent, err := env.w.Send(amount, env.mint.URL, includeFees)
+	env.checkConservation(l, "send")
 	if err == nil {
 		v.Reach("sent")
 		sum := v.ZU(0)
@@ -68,7 +72,19 @@ func vhSendStep(maxProofs int, maxExp uint64) {
 	}
 }
 
-func VHarnessSend()     { vhSendStep(2, 3) }
+func VHarnessSend() { vhSendStep(2, 3) }
+
+// the same step over the fee set of C17's quantifier (active and inactive keyset independently)
+func VHarnessSendC17Fees() {
+	vhFeeSet = []uint64{0, 100, 1000}
+	vhSendStep(2, 3)
+}
+
+// ... and with 100 ppk on both keysets (the rate at which per-keyset and joint rounding differ)
+func VHarnessSendC17() {
+	vhFeeSet = []uint64{100}
+	vhSendStep(2, 2)
+}
 func VHarnessSendWide() { vhSendStep(3, 4) }
 
 // C18 kernel: offline selection covers amount + fees and only fails when it must
